@@ -89,8 +89,9 @@ class Level:
     of the lowest visible level, its target CUR, and whether it is the bottom
     level."""
 
-    def __init__(self, R, CUR, bottom):
+    def __init__(self, R, CUR, bottom, tag=None):
         self.R, self.CUR, self.bottom = R, CUR, bottom
+        self.tag = tag  # position tag of R (for position-aware specs)
 
 
 class IdentitySpec:
@@ -112,6 +113,30 @@ class IdentitySpec:
     def marker(self, p, s):
         """facts about a node whose marker is on the stack"""
 
+    # node / position aware variants (default: functions of the structure)
+    def item_n(self, node):
+        return self.item(nm.S(node))
+
+    def seq_p(self, q, pos):
+        return self.seq(q)
+
+    def target_n(self, node):
+        return self.target(nm.S(node))
+
+    def unfold_n(self, p, node):
+        self.unfold(p, nm.S(node))
+
+    def marker_n(self, p, node):
+        self.marker(p, nm.S(node))
+
+
+T0 = z3.IntVal(0)  # position tag of the whole input
+
+
+def pos_of(owner):
+    """position tag of the children list of a node: its (unique) id"""
+    return T0 if owner is None else sym._znum(owner.attrs['id'])
+
 
 class Frames:
     """State shared by the two stacks of one run (kept in path.ghost).
@@ -126,7 +151,7 @@ class Frames:
         self.spec = spec or IdentitySpec()
         self.specs = [(self.spec, None)] + list(extra)
         self.F0 = F
-        self.F = self.spec.seq(F)  # what the bottom level has to reach
+        self.F = self.spec.seq_p(F, T0)  # what the bottom level has to reach
         self.pending_list = None  # (A, name): list to materialise next
 
     @staticmethod
@@ -138,15 +163,16 @@ class Frames:
         R = z3.Const(p.fresh_name('R' + tag), SeqS)
         bottom = p.fresh_bool('bottom' + tag)
         A = z3.Const(p.fresh_name('A' + tag), SeqS)
+        rtag = p.fresh_int('postag' + tag)
         CURs = []
         for k, (sp, g) in enumerate(self.specs):
             CUR = z3.Const(p.fresh_name(f'CUR{k or ""}' + tag), SeqS)
             CURs.append(CUR)
-            p.assume(self._under(g, z3.Concat(A, sp.seq(R)) == CUR))
+            p.assume(self._under(g, z3.Concat(A, sp.seq_p(R, rtag)) == CUR))
             p.assume(self._under(g, z3.Implies(bottom,
-                                               CUR == sp.seq(self.F0))))
-            p.assume(sp.seq(z3.Empty(SeqS)) == z3.Empty(SeqS))
-        lvl = Level(R, CURs, bottom)
+                                               CUR == sp.seq_p(self.F0, T0))))
+            p.assume(sp.seq_p(z3.Empty(SeqS), rtag) == z3.Empty(SeqS))
+        lvl = Level(R, CURs, bottom, rtag)
         visit = wl.AbsList(self.eng, [wl.Opaque(
             lvl, self.split_visit, self.visit_nonempty)])
         nbelow = p.fresh_int('lists_below' + tag)
@@ -168,11 +194,13 @@ class Frames:
             n = nm.lazy_node(e, p, p.fresh_name('pending'))
             R2 = z3.Const(p.fresh_name('R'), SeqS)
             p.assume(lvl.R == z3.Concat(z3.Unit(nm.S(n)), R2))
+            tag2 = p.fresh_int('postag')
             for sp, g in self.specs:
-                p.assume(sp.seq(lvl.R) == z3.Concat(
-                    sp.item(nm.S(n)), sp.seq(R2)))
-                sp.unfold(p, nm.S(n))
-            return (n, False), Level(R2, lvl.CUR, lvl.bottom)
+                p.assume(sp.seq_p(lvl.R, lvl.tag) == z3.Concat(
+                    sp.item_n(n), sp.seq_p(R2, tag2)))
+                p.assume(sp.seq_p(z3.Empty(SeqS), tag2) == z3.Empty(SeqS))
+                sp.unfold_n(p, n)
+            return (n, False), Level(R2, lvl.CUR, lvl.bottom, tag2)
         # this level is finished: the marker of the enclosing node is next
         if not e.truth(mk_bool(z3.Not(lvl.bottom))):
             raise PyRaise(IndexError('pop from empty list'))
@@ -182,20 +210,21 @@ class Frames:
         A2 = z3.Const(p.fresh_name('A'), SeqS)
         R2 = z3.Const(p.fresh_name('R'), SeqS)
         bottom2 = p.fresh_bool('bottom')
+        tag2 = p.fresh_int('postag')
         CURs2 = []
         for k, (sp, g) in enumerate(self.specs):
-            p.assume(self._under(g, sp.target(nm.S(x)) == lvl.CUR[k]))
-            p.assume(sp.seq(z3.Empty(SeqS)) == z3.Empty(SeqS))
-            sp.marker(p, nm.S(x))
-            sp.unfold(p, nm.S(x))
+            p.assume(self._under(g, sp.target_n(x) == lvl.CUR[k]))
+            p.assume(sp.seq_p(z3.Empty(SeqS), tag2) == z3.Empty(SeqS))
+            sp.marker_n(p, x)
+            sp.unfold_n(p, x)
             CUR2 = z3.Const(p.fresh_name(f'CUR{k or ""}'), SeqS)
             CURs2.append(CUR2)
             p.assume(self._under(g, z3.Concat(
-                A2, sp.item(nm.S(x)), sp.seq(R2)) == CUR2))
-            p.assume(self._under(g, z3.Implies(bottom2,
-                                               CUR2 == sp.seq(self.F0))))
+                A2, sp.item_n(x), sp.seq_p(R2, tag2)) == CUR2))
+            p.assume(self._under(g, z3.Implies(
+                bottom2, CUR2 == sp.seq_p(self.F0, T0))))
         self.pending_list = (A2, bottom2)
-        return (x, True), Level(R2, CURs2, bottom2)
+        return (x, True), Level(R2, CURs2, bottom2, tag2)
 
     def split_args(self, e, nbelow):
         """Materialise the list of the enclosing level."""
@@ -249,7 +278,7 @@ class Frames:
                 if not (isinstance(w, tuple) and len(w) == 2 and w[0] is g
                         and w[1] is False and part.rev):
                     return None
-                groups[-1].append(('seq', part.seq))
+                groups[-1].append(('seq', part.seq, pos_of(part.owner)))
             else:
                 it = part[1]
                 if not (isinstance(it, tuple) and len(it) == 2 and isinstance(
@@ -259,7 +288,7 @@ class Frames:
                     markers.append(it[0])
                     groups.append([])
                 else:
-                    groups[-1].append(('item', nm.S(it[0])))
+                    groups[-1].append(('item', it[0], None))
         if len(lists) != len(groups):
             return None
         eqs = []
@@ -267,24 +296,24 @@ class Frames:
             for i, (lst, grp) in enumerate(zip(lists, groups)):
                 lhs = [list_den(lst, S)]
                 if i > 0:
-                    lhs.append(sp.item(nm.S(markers[i - 1])))
-                lhs.extend(sp.seq(x) if kind == 'seq' else sp.item(x)
-                           for kind, x in grp)
+                    lhs.append(sp.item_n(markers[i - 1]))
+                lhs.extend(sp.seq_p(x, pos) if kind == 'seq' else sp.item_n(x)
+                           for kind, x, pos in grp)
                 if i < len(markers):
                     if k == 0:
                         eqs.append(Struct.is_tup(nm.S(markers[i])))
-                    eqs.append(self._under(gd, cat(lhs) == sp.target(
-                        nm.S(markers[i]))))
+                    eqs.append(self._under(gd, cat(lhs) == sp.target_n(
+                        markers[i])))
                 elif lvl is not None:
                     eqs.append(self._under(gd, cat(
-                        lhs + [sp.seq(lvl.R)]) == lvl.CUR[k]))
+                        lhs + [sp.seq_p(lvl.R, lvl.tag)]) == lvl.CUR[k]))
                     eqs.append(self._under(gd, z3.Implies(
-                        lvl.bottom, lvl.CUR[k] == sp.seq(self.F0))))
+                        lvl.bottom, lvl.CUR[k] == sp.seq_p(self.F0, T0))))
                     if k == 0:
                         eqs.append(lvl.bottom == (nbelow == 0))
                         eqs.append(nbelow >= 0)
                 else:
-                    eqs.append(self._under(gd, cat(lhs) == sp.seq(self.F0)))
+                    eqs.append(self._under(gd, cat(lhs) == sp.seq_p(self.F0, T0)))
                     if k == 0:
                         eqs.append(nbelow == 0)
         return eqs
